@@ -156,6 +156,170 @@ theorem quantile_within_precision {minV : Int} {maxV s : Nat} (hv : Valid minV m
     refine Nat.le_trans (Nat.mul_le_mul_right _ ?_) hw
     omega
 
+/-! ### merging -/
+
+/-- **Merging two histograms of the same configuration equals recording the union of their values,
+and nothing is dropped** -/
+theorem merge_is_union {minV : Int} {maxV s : Nat} (hv : Valid minV maxV s) (vs ws : List Int) :
+    merge (recordAll (new minV maxV s) vs) (recordAll (new minV maxV s) ws) =
+      (recordAll (new minV maxV s) (vs ++ ws), 0) := by
+  generalize hN : new minV maxV s = N
+  have wfN : WF N := by rw [← hN]; exact new_wf' hv
+  have hz : N.counts = List.replicate N.countsLen 0 := by rw [← hN]; rfl
+  have ht : N.total = 0 := by rw [← hN]; rfl
+  have ev := recordAll_eq N vs N.counts N.total
+  have ew := recordAll_eq N ws N.counts N.total
+  have eu := recordAll_eq N (vs ++ ws) N.counts N.total
+  change recordAll N vs = _ at ev
+  change recordAll N ws = _ at ew
+  change recordAll N (vs ++ ws) = _ at eu
+  rw [hz, ht] at ev ew eu
+  -- the argument, as a histogram of configuration `N`
+  have hlenW : (cnts N (List.replicate N.countsLen 0) ws).length = N.countsLen := by
+    rw [cnts_length]; simp
+  have hlenV : (cnts N (List.replicate N.countsLen 0) vs).length = N.countsLen := by
+    rw [cnts_length]; simp
+  have invW := (recordAll_spec ws N (by rw [← hN]; exact new_inv _ _ _)).1
+  have nnW := recordAll_nonneg ws N (by intro c hc; rw [hz] at hc; simp at hc; omega)
+  rw [ew] at invW nnW
+  obtain ⟨c', e, hl, hg⟩ := merge_same (g := recordAll N ws) (by rw [ew]; exact wf_with wfN _ _)
+    (by rw [ew]; exact hlenW) (by rw [ew]; exact nnW) (by rw [ew]; exact invW.2)
+    (cnts N (List.replicate N.countsLen 0) vs) (0 + ((vs.filter (accepts N)).length : Int))
+    (by rw [ew]; exact hlenV)
+  rw [ew] at e hl hg
+  rw [ev, ew, eu]
+  have e' : merge (withCounts N (cnts N (List.replicate N.countsLen 0) vs) (0 + ((vs.filter (accepts N)).length : Int)))
+      (withCounts N (cnts N (List.replicate N.countsLen 0) ws) (0 + ((ws.filter (accepts N)).length : Int))) = _ := e
+  show merge (withCounts N _ _) (withCounts N _ _) = (withCounts N _ _, 0)
+  rw [e']
+  have hc' : c' = cnts N (List.replicate N.countsLen 0) (vs ++ ws) := by
+    apply ext_getD
+    · rw [hl, cnts_length]; simp
+    · intro i
+      rw [hg i]
+      show _ + (cnts N (List.replicate N.countsLen 0) ws).getD i 0 = _
+      rw [cnts_getD N vs i _ (by simp), cnts_getD N ws i _ (by simp), cnts_getD N (vs ++ ws) i _ (by simp),
+        List.countP_append]
+      have h0 : (List.replicate N.countsLen (0 : Int)).getD i 0 = 0 := by
+        rw [List.getD_eq_getElem?_getD]
+        cases hx : (List.replicate N.countsLen (0 : Int))[i]? with
+        | none => rfl
+        | some a => simp [List.getElem?_replicate] at hx; simp [hx.2]
+      rw [h0]; push_cast; omega
+  rw [hc']
+  show (withCounts N _ _, (0 : Int)) = (withCounts N _ _, 0)
+  congr 2
+  simp only [List.filter_append, List.length_append]
+  show (0 : Int) + _ + (0 + _) = 0 + _
+  push_cast; omega
+
+/-- the histogram depends on the multiset of recorded values only, not on their order -/
+theorem record_order_irrelevant {minV : Int} {maxV s : Nat} (l1 l2 : List Int) (hp : l1.Perm l2) :
+    recordAll (new minV maxV s) l1 = recordAll (new minV maxV s) l2 := by
+  generalize hN : new minV maxV s = N
+  have hz : N.counts = List.replicate N.countsLen 0 := by rw [← hN]; rfl
+  have e1 := recordAll_eq N l1 N.counts N.total
+  have e2 := recordAll_eq N l2 N.counts N.total
+  change recordAll N l1 = _ at e1
+  change recordAll N l2 = _ at e2
+  rw [e1, e2, hz]
+  have hc : cnts N (List.replicate N.countsLen 0) l1 = cnts N (List.replicate N.countsLen 0) l2 := by
+    apply ext_getD
+    · rw [cnts_length, cnts_length]
+    · intro i
+      rw [cnts_getD N l1 i _ (by simp), cnts_getD N l2 i _ (by simp), hp.countP_eq]
+  rw [hc, (hp.filter _).length_eq]
+
+/-- **merging is order independent** (same configuration) -/
+theorem merge_commutes {minV : Int} {maxV s : Nat} (hv : Valid minV maxV s) (vs ws : List Int) :
+    merge (recordAll (new minV maxV s) vs) (recordAll (new minV maxV s) ws) =
+    merge (recordAll (new minV maxV s) ws) (recordAll (new minV maxV s) vs) := by
+  rw [merge_is_union hv, merge_is_union hv, record_order_irrelevant _ _ List.perm_append_comm]
+
+/-! ### windows
+
+The window is `n` histograms; `Rotate` clears the slot that becomes current, `Merge` merges every
+slot into a fresh histogram.  The abstract state keeps, per slot, the values recorded into it since
+it was last cleared. -/
+
+inductive WOp where
+  | record (v : Int)
+  | rotate
+
+def _root_.Ftdc.Hdr.Win.apply (w : Win) : WOp → Win
+  | .record v => w.record v
+  | .rotate => w.rotate
+
+/-- abstract window: the values held by every slot, and the index -/
+structure AWin where
+  n : Nat
+  slots : List (List Int)
+  idx : Nat
+
+def AWin.apply (a : AWin) : WOp → AWin
+  | .record v => { a with slots := a.slots.modify (a.idx % a.n) (· ++ [v]) }
+  | .rotate => { a with idx := a.idx + 1, slots := a.slots.modify ((a.idx + 1) % a.n) (fun _ => []) }
+
+def AWin.new (n : Nat) : AWin := { n := n, slots := List.replicate n [], idx := 0 }
+
+theorem map_modify {α β : Type} (g : α → β) (f : α → α) (f' : β → β) (hc : ∀ x, g (f x) = f' (g x)) :
+    ∀ (l : List α) (k : Nat), (l.modify k f).map g = (l.map g).modify k f'
+  | [], k => by simp
+  | a :: l, 0 => by simp [hc]
+  | a :: l, k + 1 => by simp [List.modify_succ_cons, map_modify g f f' hc l k]
+
+/-- the concrete window is the abstract one with every slot recorded into a fresh histogram -/
+def WRel (h0 : Hist) (w : Win) (a : AWin) : Prop :=
+  w.h0 = h0 ∧ w.n = a.n ∧ w.idx = a.idx ∧ w.hs = a.slots.map (recordAll h0)
+
+theorem wrel_new (n : Nat) (h0 : Hist) : WRel h0 (Win.new n h0) (AWin.new n) :=
+  ⟨rfl, rfl, rfl, by simp [Win.new, AWin.new, recordAll]⟩
+
+theorem wrel_step {h0 : Hist} {w : Win} {a : AWin} (r : WRel h0 w a) (op : WOp) :
+    WRel h0 (w.apply op) (a.apply op) := by
+  obtain ⟨r1, r2, r3, r4⟩ := r
+  cases op with
+  | record v =>
+    refine ⟨r1, r2, r3, ?_⟩
+    show w.hs.modify (w.idx % w.n) _ = (a.slots.modify (a.idx % a.n) _).map _
+    rw [r4, r2, r3]
+    exact (map_modify (recordAll h0) (· ++ [v]) (fun h => (recordValue h v).getD h)
+      (by intro l; simp [recordAll, List.foldl_append]) _ _).symm
+  | rotate =>
+    refine ⟨r1, r2, by show w.idx + 1 = a.idx + 1; rw [r3], ?_⟩
+    show w.hs.modify ((w.idx + 1) % w.n) _ = (a.slots.modify ((a.idx + 1) % a.n) _).map _
+    rw [r4, r2, r3, r1]
+    exact (map_modify (recordAll h0) (fun _ => []) (fun _ => h0) (by intro l; simp [recordAll]) _ _).symm
+
+theorem wrel_run {h0 : Hist} (ops : List WOp) : ∀ {w : Win} {a : AWin}, WRel h0 w a →
+    WRel h0 (ops.foldl Win.apply w) (ops.foldl AWin.apply a) := by
+  induction ops with
+  | nil => intro w a r; exact r
+  | cons op ops ih => intro w a r; exact ih (wrel_step r op)
+
+/-- **A windowed histogram's merge equals recording the union of what its slots hold, with nothing
+dropped**, after any sequence of records and rotations -/
+theorem window_merge_is_union {minV : Int} {maxV s : Nat} (hv : Valid minV maxV s) (n : Nat) (ops : List WOp) :
+    (ops.foldl Win.apply (Win.new n (new minV maxV s))).merge =
+      (recordAll (new minV maxV s) (ops.foldl AWin.apply (AWin.new n)).slots.flatten, 0) := by
+  obtain ⟨r1, _, _, r4⟩ := wrel_run ops (wrel_new n (new minV maxV s))
+  unfold Win.merge
+  rw [r1, r4]
+  have key : ∀ (slots : List (List Int)) (L : List Int),
+      (slots.map (recordAll (new minV maxV s))).foldl
+        (fun (acc : Hist × Int) h => let r := merge acc.1 h; (r.1, acc.2 + r.2))
+        (recordAll (new minV maxV s) L, 0) =
+      (recordAll (new minV maxV s) (L ++ slots.flatten), 0) := by
+    intro slots
+    induction slots with
+    | nil => intro L; simp
+    | cons sl slots ih =>
+      intro L
+      simp only [List.map_cons, List.foldl_cons, merge_is_union hv]
+      rw [show ((0 : Int) + 0) = 0 from rfl, ih (L ++ sl)]
+      simp [List.append_assoc]
+  exact key _ []
+
 /-! non-vacuity -/
 example : import_ (export_ (recordAll (new 1 100 2) [5, 5, 99, 1000, -3])) =
     recordAll (new 1 100 2) [5, 5, 99, 1000, -3] := import_export_identity _ _ _ _
